@@ -378,3 +378,74 @@ example : validateMeta ⟨3, 5, 1⟩ ⟨false, false, 3, 5, 2, 2, 3⟩ = "stale"
     validateMeta ⟨3, 5, 1⟩ ⟨false, false, 2, 9, 1, 2, 3⟩ = "stale" := by decide
 
 end WK.C04
+
+/-! ## op-sequence lift: an older authority is never installed again -/
+namespace WK.C04
+open WK WK.Repl
+
+/-- **c04_older_never_installed** — op-sequence lift of the fencing theorem: once owner `i` holds
+    authority `b`, then after ANY further operations that do not replace the owner (installs —
+    successful, failed or fenced —, commits, follower repairs, crashes/restarts of other nodes, in
+    any order), an `Install` of any older authority `a < b` (lower epoch, or same epoch and lower
+    term, or same epoch+term and lower fence) is never accepted: it does not return `installed`, and
+    the authority the owner holds afterwards is still not below `b`. -/
+theorem c04_older_never_installed (s : Sys) (i : Nat) (a : Authority) (b : AuthId) (ops : List Op)
+    (h : ownerAuth s i = some b) (hlt : cmpAuth a.id b = .lt) (hr : ∀ op ∈ ops, resets i op = false)
+    (ps : List PSpec) (acks : List Ack) :
+    (∀ id leo hw, (step (runS s ops) (.install i a ps acks)).2 ≠ .installed id leo hw) ∧
+    ∃ b', ownerAuth (step (runS s ops) (.install i a ps acks)).1 i = some b' ∧ AuthGe b' b := by
+  obtain ⟨b1, hb1, hge1⟩ := run_ownerAuth s ops i b h hr
+  have hlt1 : cmpAuth a.id b1 = .lt := lt_of_lt_of_ge hlt hge1
+  constructor
+  · intro id leo hw hres
+    generalize runS s ops = t at hb1 hres
+    obtain ⟨n, q, cap, started, nodes, owners⟩ := t
+    have hbT : ownerAuth ⟨n, q, cap, true, nodes, owners⟩ i = some b1 := hb1
+    -- the install itself, on a state whose owner holds b1 > a
+    have key : ∀ ow, (install ⟨n, q, cap, true, nodes, ow⟩ i a ps acks).2 ≠ .installed id leo hw := by
+      intro ow hinst
+      have hbO : ownerAuth ⟨n, q, cap, true, nodes, ow⟩ i = some b1 := hb1
+      unfold ownerAuth at hbO
+      cases hc : chanOf ⟨n, q, cap, true, nodes, ow⟩ i with
+      | none => simp [hc] at hbO
+      | some co =>
+        cases co with
+        | none => simp [hc] at hbO
+        | some ch =>
+          simp [hc] at hbO
+          obtain ⟨nd, hn, hcn⟩ := chanOf_some hc
+          by_cases hz : ch.auth.id = AuthId.zero
+          · rw [← hbO, hz] at hlt1
+            exact absurd hlt1 (authGe_zero a.id)
+          · rcases (c04_older_rejected _ i a ps acks nd ch hn hcn hz).1 (by rw [hbO]; exact hlt1) with e | e
+            · rw [e] at hinst; cases hinst
+            · rw [e] at hinst; cases hinst
+    simp only [step] at hres
+    cases hn : Sys.node? ⟨n, q, cap, true, nodes, owners⟩ i with
+    | none => simp [hn] at hres
+    | some nd =>
+      simp only [hn] at hres
+      split at hres
+      · cases hres
+      · split at hres
+        · split at hres
+          · cases hres
+          · split at hres
+            · cases hres
+            · exact key _ hres
+        · split at hres
+          · cases hres
+          · exact key _ hres
+  · obtain ⟨b2, hb2, hge2⟩ := c04_install_mono (runS s ops) (.install i a ps acks) i b1 hb1 rfl
+    exact ⟨b2, hb2, hge2.trans hge1⟩
+
+/-- non-vacuity: owner 1 holds (2,1,1); after a failed install of (2,2,1) and a commit, an install
+    of the lower-EPOCH authority (1,9,9) is refused `stale` -/
+example :
+    let s := (step Sys.default (.install 1 ⟨⟨2, 1, 1⟩, 2, false⟩ [.all, .all, .all] [.D, .D, .D])).1
+    let ops : List Op := [.install 1 ⟨⟨2, 2, 1⟩, 2, false⟩ [.none, .none, .none] [.D, .D, .D],
+                          .commit 1 ⟨2, 1, 1⟩ 1 1 0 [.D, .D, .D]]
+    ownerAuth s 1 = some ⟨2, 1, 1⟩ ∧ (∀ op ∈ ops, resets 1 op = false) ∧
+    (step (runS s ops) (.install 1 ⟨⟨1, 9, 9⟩, 2, false⟩ [.all, .all, .all] [.D, .D, .D])).2 = .err .stale := by decide
+
+end WK.C04
